@@ -361,12 +361,50 @@ func (b *B) Cmp(op string, x, y *Term) *Term {
 	return b.mk(&Term{Op: op, Args: []*Term{x, y}, S: BoolS()})
 }
 
+// concreteArr: the array is a chain of constant stores over a constant array.
+func concreteArr(t *Term) (def uint64, cells map[uint64]uint64, ok bool) {
+	cells = map[uint64]uint64{}
+	n := 0
+	for t.Op == "store" {
+		if !isC(t.Args[1]) || !isC(t.Args[2]) || n > 4096 {
+			return 0, nil, false
+		}
+		if _, seen := cells[t.Args[1].Val]; !seen {
+			cells[t.Args[1].Val] = t.Args[2].Val
+		}
+		t = t.Args[0]
+		n++
+	}
+	if t.Op != "constarr" || !isC(t.Args[0]) {
+		return 0, nil, false
+	}
+	return t.Args[0].Val, cells, true
+}
+
 func (b *B) Eq(x, y *Term) *Term {
 	if x.S != y.S {
 		panic(fmt.Sprintf("sort mismatch in =: %s vs %s", x.S, y.S))
 	}
 	if x == y {
 		return b.tru
+	}
+	if x.S.K == 'a' && (x.Op == "store" || x.Op == "constarr") && (y.Op == "store" || y.Op == "constarr") {
+		if dx, cx, ok := concreteArr(x); ok {
+			if dy, cy, ok := concreteArr(y); ok {
+				same := dx == dy
+				for k, v := range cx {
+					if w, in := cy[k]; in && w != v || !in && v != dy {
+						same = false
+					}
+				}
+				for k, v := range cy {
+					if _, in := cx[k]; !in && v != dx {
+						same = false
+					}
+				}
+				return b.Bool(same)
+			}
+		}
 	}
 	if isC(x) && isC(y) {
 		return b.Bool(x.Val == y.Val)
